@@ -56,6 +56,12 @@ Table == <<
   [n |-> "environment bare keys, one empty in the environment", top |-> FALSE, p |-> <<"environment">>, short |-> Sq2(S("EMPTYVAR"), S("SETVAR")), long |-> M2("EMPTYVAR", Null, "SETVAR", Null)],
   [n |-> "additional_contexts list", top |-> FALSE, p |-> <<"build">>, short |-> M2("context", S("."), "additional_contexts", Sq2(S("src=https://example.com/r.git?ref=v1&depth=1"), S("img=docker-image://x:1"))),
      long |-> M2("context", S("."), "additional_contexts", M2("src", S("https://example.com/r.git?ref=v1&depth=1"), "img", S("docker-image://x:1")))],
+  \* keys of free-form mappings are the user's: one that starts with x- is a key like any other, not an extension of the attribute
+  [n |-> "environment key starting with x-", top |-> FALSE, p |-> <<"environment">>, short |-> Sq2(S("x-trace=1"), S("A=2")), long |-> M2("x-trace", S("1"), "A", S("2"))],
+  [n |-> "labels key starting with x-", top |-> FALSE, p |-> <<"labels">>, short |-> Sq2(S("x-team=core"), S("tier=1")), long |-> M2("x-team", S("core"), "tier", S("1"))],
+  [n |-> "build args key starting with x-", top |-> FALSE, p |-> <<"build">>, short |-> M2("context", S("."), "args", Sq1(S("x-arg=1"))), long |-> M2("context", S("."), "args", M1("x-arg", S("1")))],
+  [n |-> "sysctls key starting with x-", top |-> FALSE, p |-> <<"sysctls">>, short |-> Sq1(S("x-y.z=1")), long |-> M1("x-y.z", S("1"))],
+  [n |-> "extra_hosts name starting with x-", top |-> FALSE, p |-> <<"extra_hosts">>, short |-> Sq1(S("x-host=10.0.0.1")), long |-> M1("x-host", S("10.0.0.1"))],
   [n |-> "labels list with = in the value", top |-> FALSE, p |-> <<"labels">>, short |-> Sq2(S("k=a=b"), S("q==")), long |-> M2("k", S("a=b"), "q", S("="))],
   [n |-> "sysctls list", top |-> FALSE, p |-> <<"sysctls">>, short |-> Sq1(S("net.core.somaxconn=1024")), long |-> M1("net.core.somaxconn", S("1024"))],
   [n |-> "annotations list", top |-> FALSE, p |-> <<"annotations">>, short |-> Sq1(S("k=v")), long |-> M1("k", S("v"))],
